@@ -87,7 +87,7 @@ def run_exh_pairs(ctx, case):
         ctx.require(bool(A.commutate_with(B)) == ref.pauli_commute(a, b), 'commutate_with', f'{a},{b}')
         if DA is not None:
             ctx.close(c.full_matrix, DA @ ref.pauli_dense(b), 1e-12, 'matmul dense')
-        ctx.label('pair')
+        ctx.tick()
 
 
 def cases_exh_pairs(tier):
